@@ -452,7 +452,7 @@ static int run_worker(void)
             pid_t r = waitpid(pid, &status, WNOHANG);
             if (r == pid) break;
             struct timespec ts = { 0, 20 * 1000 * 1000 }; nanosleep(&ts, NULL);
-            if (vh_rss_mb(pid) > VH_RSS_LIMIT_MB) { bloated = 1; kill(-pid, SIGKILL); kill(pid, SIGKILL); waitpid(pid, &status, 0); break; }
+            if (vh_rss_mb(pid) > VH_EXECUTOR_RSS_LIMIT_MB) { bloated = 1; kill(-pid, SIGKILL); kill(pid, SIGKILL); waitpid(pid, &status, 0); break; }
             if (s->heartbeat != hb) { hb = s->heartbeat; last = now(); }
             else if (now() - last > opt_case_timeout) { hung = 1; kill(-pid, SIGKILL); kill(pid, SIGKILL); waitpid(pid, &status, 0); break; }
         }
@@ -462,7 +462,7 @@ static int run_worker(void)
         /* crash / hang: attribute to the current case */
         char key[800], cls[96], det[2048], st[320];
         cur_key(key, sizeof key);
-        if (bloated) { snprintf(cls, sizeof cls, "memory-runaway"); snprintf(det, sizeof det, "the process executing this case grew beyond %d MiB resident and was ended", VH_RSS_LIMIT_MB); }
+        if (bloated) { snprintf(cls, sizeof cls, "memory-runaway"); snprintf(det, sizeof det, "the process executing this case grew beyond %d MiB resident and was ended", VH_EXECUTOR_RSS_LIMIT_MB); }
         else if (hung) { snprintf(cls, sizeof cls, "hang"); snprintf(det, sizeof det, "no progress for %.0f s", opt_case_timeout);
                     /* every hang costs the full time limit: three in one worker are enough to report, stop the run */
                     if (++s->hangs >= 3) SH->stop = 1; }
